@@ -1,13 +1,14 @@
-//! Driver for the corruptx engine (C12): `corruptx_test [quick|thorough]`,
-//! `corruptx_test one <tier> <base index> <alteration index>` replays one case in-process.
+mod corruptx;
+// Driver for the corruptx engine (C12): `corruptx_test [quick|thorough]`,
+// `corruptx_test one <tier> <base index> <alteration index>` replays one case in-process.
 fn main() {
     let args: Vec<String> = std::env::args().collect();
     if args.get(1).map(|s| s.as_str()) == Some("one") && std::env::var("VH_CORRUPTX_CHILD").is_err() {
         let tier = args.get(2).map(|s| s.as_str()).unwrap_or("quick");
         let bi = args.get(3).and_then(|s| s.parse().ok()).unwrap_or(0);
         let idx = args.get(4).and_then(|s| s.parse().ok()).unwrap_or(0);
-        std::process::exit(vh::corruptx::run_single(tier, bi, idx));
+        std::process::exit(corruptx::run_single(tier, bi, idx));
     }
     let tier = args.get(1).map(|s| s.as_str()).unwrap_or("quick");
-    std::process::exit(vh::corruptx::run(tier));
+    std::process::exit(corruptx::run(tier));
 }
